@@ -46,13 +46,17 @@ func c19Ident(r *wk.Rand, used map[string]bool) string {
 			// valid identifiers that do not start with an ASCII letter
 			s = wk.Pick(r, []string{"élan", "Überwachung", "имя", "名前", "ñandu", "çevre", "über9", "Ärger", "naïve", "Ωmega"})
 		}
-		if used[strings.ToLower(s)] {
-			continue
+		if used[strings.ToLower(s)] || goKeywords[s] {
+			continue // (a Go keyword such as "go" or "if" is not a valid identifier: outside the statement)
 		}
 		used[strings.ToLower(s)] = true
 		return s
 	}
 }
+
+var goKeywords = map[string]bool{"break": true, "case": true, "chan": true, "const": true, "continue": true, "default": true, "defer": true,
+	"else": true, "fallthrough": true, "for": true, "func": true, "go": true, "goto": true, "if": true, "import": true, "interface": true,
+	"map": true, "package": true, "range": true, "return": true, "select": true, "struct": true, "switch": true, "type": true, "var": true}
 
 func c19Gen(r *wk.Rand) []c19Obj {
 	nobj := r.Intn(7)
